@@ -225,11 +225,16 @@ def concrete_playback(ob, harness_timeout=300):
     cmd += ["--harness-timeout", "%ds" % harness_timeout, "--target-dir", KANI_TARGET, "--exact",
             "--harness", ob.full_name]
     with Lock("kani"):
-        rc, out, secs = run(cmd, cwd=REPO, env={"CARGO_NET_OFFLINE": "true"}, timeout=900 + harness_timeout)
-    m = re.search(r"Concrete playback unit test for `[^`]*`:\s*```\s*\n(.*?)```", out, re.S)
-    if not m:
+        # VERIF_NO_COVER compiles the vacuity covers out: Kani emits one playback test per harness and
+        # would otherwise pick a satisfied cover instead of the failed assertion
+        rc, out, secs = run(cmd, cwd=REPO, env={"CARGO_NET_OFFLINE": "true", "VERIF_NO_COVER": "1"},
+                            timeout=900 + harness_timeout)
+    # Kani prints one unit test per failed check AND per satisfied cover; keep the failed checks only
+    blocks = re.findall(r"Concrete playback unit test for `[^`]*`:\s*```\s*\n(.*?)```", out, re.S)
+    tests = [b for b in blocks if "Check for `cover`" not in b]
+    if not tests:
         return None, out
-    return m.group(1), out
+    return "\n".join(tests), out
 
 
 def native_replay(ob, test_src, timeout=1800):
@@ -237,10 +242,11 @@ def native_replay(ob, test_src, timeout=1800):
     working tree with the ordinary code generator (cfg(kani) on, so the harness module exists) and runs
     the generated unit test, which feeds Kani's concrete values to the harness. A failing test
     (panic / failed assert) confirms the violation on the real code."""
-    m = re.search(r"fn (kani_concrete_playback_\w+)", test_src)
-    if not m:
+    names = re.findall(r"fn (kani_concrete_playback_\w+)", test_src)
+    if not names:
         return {"ran": False, "reason": "no test name in playback source"}
-    test_name = m.group(1)
+    # all generated tests of one harness share the prefix kani_concrete_playback_<harness>_
+    test_name = "kani_concrete_playback_" + ob.name + "_"
     path = os.path.join(PLAYBACK_DIR, ob.module + ".rs")
     with Lock("kani"):
         clear_playback()
@@ -253,7 +259,7 @@ def native_replay(ob, test_src, timeout=1800):
                                 timeout=timeout)
         finally:
             clear_playback()
-    ran = ("running 1 test" in out)
+    ran = bool(re.search(r"running [1-9]\d* tests?", out))
     failed = ran and ("test result: FAILED" in out or "... FAILED" in out)
     passed = ran and ("test result: ok" in out) and not failed
     return {"ran": ran, "test": test_name, "reproduced_on_real_code": failed, "passed_natively": passed,
